@@ -868,3 +868,46 @@ def rule_gr_access_matches_direction(ctx):
                     ctx.holds("GRPERM", key, f.where(line), "a writing routine obtains write access unconditionally or after testing the permission of the open element", nontrivial=True)
     ctx.floor("GRPERM", 4, n, "(GRIgetaid requests in the GR read/write routines)")
     return n
+
+
+def rule_existence_through_open_aid(ctx):
+    """OPENLEN (C09): "does this image have data yet?" decides between reading the element and handing out the fill value, and
+    between overwriting a region and laying down a new filled image.  The length recorded in the file for the image's tag/ref
+    answers that only when no access element is open on it: a compressed image being written keeps its data in the coder
+    and its recorded length stays 0 until the access ends.  Every `Hlength(.., X->img_tag, X->img_ref)` in the GR interface is
+    therefore preceded, in its routine, by a test of `X->img_aid` (the open access element is asked instead when there is one)."""
+    from .codec import ast_walk
+    from .facts import calls_in, mem_field
+    prog = ctx.prog
+    n = 0
+    for f in prog.lib_funcs():
+        ast = f.raw.get("ast")
+        if not ast or not f.rel.endswith("hdf/src/mfgr.c"):
+            continue
+        order = []
+
+        def vis(nd, st):
+            if nd[0] in ("s", "if", "while", "switch") and nd[1] is not None:
+                order.append(nd)
+            return True
+
+        ast_walk(ast, vis)
+        seen_aid = False
+        k = 0
+        for nd in order:
+            if nd[0] == "if":
+                for x in walk(nd[1], True):
+                    if x[0] == "mem" and x[2] == "img_aid":
+                        seen_aid = True
+            for c in calls_in(nd[1], True):
+                if c[1] == "Hlength" and len(c[3]) > 2 and any(x[0] == "mem" and x[2] == "img_ref" for x in walk(c[3][2], True)):
+                    k += 1
+                    n += 1
+                    key = "OPENLEN:%s#%d" % (f.name, k)
+                    line = nd[-3] if isinstance(nd[-3], int) else f.line
+                    if seen_aid:
+                        ctx.holds("OPENLEN", key, f.where(line), "the recorded length of the image element is consulted after a test of img_aid", nontrivial=True)
+                    else:
+                        ctx.violated("OPENLEN", key, f.where(line), "the recorded length of the image's element decides whether data exists, with no test of img_aid before it: while a compressed image is open for writing that length is still 0 and written pixels are taken for absent")
+    ctx.floor("OPENLEN", 1, n, "(Hlength calls on an image's data element)")
+    return n
